@@ -113,46 +113,49 @@ fn single_faults(name: &'static str, kinds: Vec<FaultKind>) -> Family<ClientPlan
         let mut p = ClientPlan::plain(wl[wi].clone());
         p.cfg.max_tx = 2;
         p.faults = vec![FaultSpec { conn: 0, point, kind }];
+        p.pt.nack_keeps_connection = true;
         p.label = format!("via_client/{:?}", kind);
         p
     })
 }
 
-/// A slow but healthy terminal: every packet well inside the per-packet time-out, the exchange as
-/// a whole longer than it; packets in two pieces with a pause below the time-out. No failure, so
-/// every command goes out once, on the one connection.
+/// A slow but healthy terminal: every packet within 10 s of the previous one, a card reading as a
+/// whole inside the configured time; packets in two pieces with a pause of up to 150 ms - below any
+/// sensible time-out policy. No failure, so every command goes out once, on the one connection.
 fn slow_families() -> Vec<Family<ClientPlan>> {
     vec![
         Family::new("client_slow_but_healthy_terminal", 3 * 4, true, |i, _| {
             let mut p = ClientPlan::plain(workloads()[(i % 3) as usize].clone());
             p.cfg.max_tx = 2;
+            // (every packet within 10 s of the previous one; a card reading - up to three packets here -
+            // as a whole inside the configured time)
             match i / 3 {
                 0 => {
                     p.cfg.read_card_timeout = 15;
-                    p.pt.pace_ms = 12_000;
+                    p.pt.pace_ms = 4_000;
                 }
                 1 => {
                     p.cfg.read_card_timeout = 60;
-                    p.pt.pace_ms = 25_000;
+                    p.pt.pace_ms = 9_500;
                 }
                 2 => {
                     p.cfg.read_card_timeout = 5;
-                    p.pt.pace_ms = 5_000;
+                    p.pt.pace_ms = 1_500;
                 }
                 _ => {
-                    p.cfg.read_card_timeout = 0;
-                    p.pt.pace_ms = 1_500;
+                    p.cfg.read_card_timeout = 30;
+                    p.pt.pace_ms = 9_000;
                 }
             }
             p.label = "via_client/slow".into();
             p
         }),
-        Family::new("client_packets_in_two_pieces_below_the_time_out", 3 * 4 * 3, true, |i, _| {
+        Family::new("client_packets_in_two_pieces_with_short_pauses", 3 * 4 * 3, true, |i, _| {
             let mut p = ClientPlan::plain(workloads()[(i % 3) as usize].clone());
             p.cfg.max_tx = 2;
-            p.cfg.read_card_timeout = 3; // 5 s per packet
+            p.cfg.read_card_timeout = 15;
             let bytes = [1u8, 2, 3, 5][((i / 3) % 4) as usize];
-            let ms = [100u32, 1_500, 4_000][(i / 12) as usize];
+            let ms = [50u32, 100, 150][(i / 12) as usize];
             p.pt.frame_pause = Some((bytes, ms, 2));
             p.label = "via_client/pieces".into();
             p
